@@ -1,7 +1,7 @@
 """C20 - the HTTP gateway forwards only authorised requests, and forwards them faithfully.
 
 MC    : Gateway.tla (Decide / Forward over the whole request space; OnlyAuthorised, InvokesOnlyNamed).
-Gen   : Gen_Gateway.tla enumerates the request space with irrelevant fields folded (10 454 cases).
+Gen   : Gen_Gateway.tla enumerates the request space with irrelevant fields folded (10 498 cases).
 Drive : the real WSGI callable pyro_app, configured per case (key, pattern), in front of a real name server object and real
         target objects in a real daemon on the in-memory transport.  Every Pyro message the gateway sends is counted, every
         execution of a target member is logged with object, member, arguments and returned value.
@@ -17,8 +17,10 @@ from .. import sched as S
 
 NAMES = {"exact": "http.echo", "suffix": "http.echoX", "prefix": "xhttp.echo", "case": "HTTP.Echo", "other_exposed": "http.other",
          "unexposed_registered": "private.obj", "unknown": "http.nothere"}
-REGISTERED = {"http.echo": "echo", "http.other": "other", "private.obj": "private"}
-MEMBERS = {"method": "echo", "method_raises": "fail", "attribute": "value", "meta": "$meta", "unknown": "nosuch", "private": "_secret"}
+# internal.http.admin contains the default pattern, but not at its start: it is not exposed (the pattern is matched at the start)
+REGISTERED = {"http.echo": "echo", "http.other": "other", "private.obj": "private", "internal.http.admin": "internal"}
+MEMBERS = {"method": "echo", "method_raises": "fail", "attribute": "value", "meta": "$meta", "unknown": "nosuch", "private": "_secret",
+           "method_slow": "slow"}
 PATTERNS = {"default": r"http\.", "anchored": r"http\.echo$", "empty": ""}
 PARAMS = {"none": [], "one": [("message", "hi there")], "two": [("a", "1"), ("b", "two")], "repeated": [("a", "1"), ("a", "2")],
           "encoded": [("text", "héllo wörld&=+/%?#"), ("n", "中"), ("esc", "100%41%2541"), ("plus", "a+b c")]}
@@ -77,7 +79,9 @@ def run_cases(cases):
 
     def main():
         sc = S.CUR
-        config.SERVERTYPE = "multiplex"
+        config.SERVERTYPE = "thread"        # (a second request must not have to wait for a method that is still running)
+        config.THREADPOOL_SIZE = 24
+        config.THREADPOOL_SIZE_MIN = 2
         config.COMMTIMEOUT = 0.0
         log = []
 
@@ -92,6 +96,11 @@ def run_cases(cases):
 
             def echo(self, **kwargs):
                 return self._ran("echo", kwargs, {"tag": self.tag, "member": "echo", "kwargs": kwargs})
+
+            def slow(self, **kwargs):
+                self._ran("slow", kwargs, "slow-result")
+                S.CUR.sleep(5.0)            # longer than the gateway's communication timeout
+                return "slow-result"
 
             def fail(self, **kwargs):
                 self._ran("fail", kwargs, None)
@@ -132,6 +141,7 @@ def run_cases(cases):
                 r = case["r"]
                 G.pyro_app.gateway_key = KEY.encode() if r["keycfg"] == "set" else None
                 G.pyro_app.ns_regex = PATTERNS[r["pattern"]]
+                G.pyro_app.comm_timeout = 2.0 if r["member"] == "method_slow" else 0.0
                 if i % 97 == 0 and G._nameserver is not None:
                     G._nameserver._pyroRelease()
                     G._nameserver = None
@@ -148,6 +158,8 @@ def run_cases(cases):
                     got["status"] = status
                 try:
                     body = b"".join(G.pyro_app(env, start_response))
+                    if r["member"] == "method_slow":
+                        sc.sleep(12.0)      # whatever the gateway sent has been served by now
                     sc.quiesce()
                     tr["status"] = int(got.get("status", "0").split()[0])
                 except S.Hang:
@@ -168,7 +180,7 @@ def run_cases(cases):
                     tr["body"] = "result"
                 elif isinstance(val, dict) and val.get("__exception__") and "ValueError" in str(val.get("__class__")):
                     tr["body"] = "exception"
-                elif isinstance(val, dict) and set(val) == {"methods", "attributes"} and set(val["methods"]) == {"echo", "fail", "nosuch_other"} \
+                elif isinstance(val, dict) and set(val) == {"methods", "attributes"} and set(val["methods"]) == {"echo", "fail", "nosuch_other", "slow"} \
                         and set(val["attributes"]) == {"value"}:
                     tr["body"] = "meta"
                 tr["body_head"] = body[:100].decode("latin-1")
@@ -193,7 +205,7 @@ def run_cases(cases):
 
 def run(ctx):
     memnet.install()
-    ctx.rule = ("cases = the request space of Gateway.tla with irrelevant fields folded (Gen_Gateway: 10 454), one WSGI call each "
+    ctx.rule = ("cases = the request space of Gateway.tla with irrelevant fields folded (Gen_Gateway: 10 498), one WSGI call each "
                 "(quick: every refused / routed case class in full rotation, one in three of the rest); distinct_nontrivial = distinct "
                 "abstract requests")
     ctx.assumptions = ["the expose pattern is a regular expression matched at the start of the object name (re.match), as documented",
@@ -207,8 +219,8 @@ def run(ctx):
                 raise util.MachineryError("Matches table disagrees with the concrete names: %s %s" % (p, n))
     tlc.mc(ctx, "Gateway", cfg="MC_Gateway.cfg")
     cases = tlc.gen(ctx, "Gen_Gateway", cfg="Gen_Gateway.cfg")
-    if len(cases) != 10454:
-        raise util.MachineryError("expected 10454 cases, got %d" % len(cases))
+    if len(cases) != 10498:
+        raise util.MachineryError("expected 10498 cases, got %d" % len(cases))
     cases.sort(key=lambda c: json.dumps(c["r"], sort_keys=True))
     if ctx.quick:
         cases = [c for i, c in enumerate(cases) if c["decide"] in ("redirect", "notfound", "index", "preflight") or (i + ctx.seed) % 3 == 0]
